@@ -1,5 +1,6 @@
 import Pm.ReplyProof
 import Pm.E2EEx
+import Pm.RunXEx
 /-! # C02 — success is reported only when every target was really handled  (client side: `client.c`)
 
 What is shown here, about the real definitions of `Pm/Daemon.lean` (`finalReply`, `actFinish`, `applyOuts`),
@@ -24,7 +25,13 @@ The second half of the file (`## end to end`) composes this with the device side
 (`C02_pending_is_queued`), what one pass does to a command in progress (`C02_pass`), and over any run of passes
 `C02_sound` / `C02_complete` / `C02_errors_named`; `C02_success_is_completion` says what a success completion means on
 the device, `C02_request_installed` / `C02_targets_covered` / `C02_cannot_be_handled` what an accepted request queued.
-Helper lemmas: `Pm/E2EDev.lean`, `Pm/E2ECli.lean`, `Pm/EndToEnd.lean`; example run: `Pm/E2EEx.lean`. -/
+Helper lemmas: `Pm/E2EDev.lean`, `Pm/E2ECli.lean`, `Pm/EndToEnd.lean`; example run: `Pm/E2EEx.lean`.
+
+The run theorems of that half are stated over `runPasses`, the plain fold of `daemonPass`, in which only the *first* pass of
+the run can see an answer of the regex engine (`daemonPass` consumes and clears `pendingX`; the driver refills it between
+passes).  The last part of the file (`## end to end, regex answers arbitrary in every pass`) states them over `runX`
+(`Pm/RunX.lean`: every pass brings its own answers); the `runPasses` statements are the special case of passes that bring no
+answer, and are proved from the `runX` ones (`Pm/RunXE2E.lean`: `sound_plain`, …). -/
 namespace Pm.Props.C02
 open Pm Pm.Client Pm.Daemon
 open Pm.Daemon.Reply
@@ -196,7 +203,13 @@ the record of the client with id `g`; `totalQ g devs` the number of actions of c
 `passDead w p` says the pass ended in a modelled assertion (the C process is gone; what the model computes afterwards
 means nothing), `Alive w ps` that no pass of the run did; `passFins w p g` / `runFins w ps g` are the completions the
 devices reported for client `g` in a pass / a run, as pairs (device name, outcome), in the order of delivery;
-`passText w p g` the `305`/`308`/`309` lines the device phase of the pass wrote to the client. -/
+`passText w p g` the `305`/`308`/`309` lines the device phase of the pass wrote to the client.
+
+NOTE.  In `runPasses w ps` only the first pass can see an answer of the regex engine (they are the field `pendingX` of `w`, which
+`daemonPass` consumes and clears).  The run theorems of this section are therefore about runs in which no `expect` matches after
+the first pass; they are kept as corollaries of the general ones in the last section of the file (`…_runX`: every pass brings
+its own regex answers).  The one-pass theorems (`C02_pass`, `C02_accepting_pass`, …) hold for an arbitrary world `w`, answers
+pending or not, and need no lifting. -/
 section endToEnd
 open Pm.Daemon.E2E
 open Pm.Daemon.Isolation (runPasses)
@@ -209,7 +222,7 @@ open Pm.Dev2 (Dev Action Plug Oracle qcount)
     client, empty queues: `C02_Inv_init`) and after any run of passes none of which ends in an assertion — whatever the
     kernel answers, whatever the other clients do. -/
 theorem C02_pending_is_queued (w : W) (ps : List PassIn) (h : Inv w) (ha : Alive w ps) : Inv (runPasses w ps) :=
-  runPasses_inv w ps h ha
+  runPasses_inv_plain w ps h ha      -- corollary of `C02_pending_is_queued_runX` (passes that bring no regex answer)
 
 theorem C02_Inv_init (w : W) (hc : w.clients = []) (hq : ∀ nd ∈ w.devs, nd.2.acts = []) (hn : 0 < w.nextId) (ha : 0 < w.alNext) :
     Inv w := inv_init w hc hq hn ha
@@ -324,7 +337,8 @@ theorem C02_sound (w0 : W) (ps : List PassIn) (p : PassIn) (g : Nat) (c0 : Cli) 
     k0.error = false ∧ (runFins w0 (ps ++ [p]) g).length = k0.pending ∧ k0.pending = totalQ g w0.devs ∧
     (∀ x ∈ runFins w0 (ps ++ [p]) g, x.2 = .success) ∧
     ∀ n ∈ k0.names, ∀ a, ((storeArgs (runPasses w0 (ps ++ [p])) k0.al).map argC).find? (·.node == n) = some a → a.result ≠ 1 :=
-  sound w0 ps p g c0 k0 c' hinv ha hc0 hk0 ((isPower_iff k0.com).mpr hp) hbusy hidle hnone (by simpa [okLine, List.append_assoc] using h102)
+  -- corollary of `C02_sound_runX` (passes that bring no regex answer)
+  sound_plain w0 ps p g c0 k0 c' hinv ha hc0 hk0 ((isPower_iff k0.com).mpr hp) hbusy hidle hnone (by simpa [okLine, List.append_assoc] using h102)
 
 /-- the example run: the device answers, the script comes to its end, the client gets `102` -/
 example : Ex.k0.error = false ∧ (runFins Ex.w3x ([] ++ [Ex.p4]) 1).length = Ex.k0.pending ∧ Ex.k0.pending = totalQ 1 Ex.w3x.devs ∧
@@ -346,7 +360,8 @@ theorem C02_complete (w0 : W) (ps : List PassIn) (p : PassIn) (g : Nat) (c0 : Cl
     (hres : ∀ n ∈ k0.names, ∀ a, ((storeArgs (runPasses w0 (ps ++ [p])) k0.al).map argC).find? (·.node == n) = some a → a.result ≠ 1) :
     ∃ c1, cliRec (cliPostPoll (runPasses w0 ps) p.acc p.envs) g = some c1 ∧
       c'.toBuf = c1.toBuf ++ passText (runPasses w0 ps) p g ++ (bstr "102 Command completed successfully" ++ crlf) ++ prompt :=
-  complete w0 ps p g c0 k0 c' hinv ha hc0 hk0 ((isPower_iff k0.com).mpr hp) hbusy hidle hnone herr hall hres
+  -- corollary of `C02_complete_runX` (passes that bring no regex answer)
+  complete_plain w0 ps p g c0 k0 c' hinv ha hc0 hk0 ((isPower_iff k0.com).mpr hp) hbusy hidle hnone herr hall hres
 
 example : ∃ c1, cliRec (cliPostPoll (runPasses Ex.w3x []) Ex.p4.acc Ex.p4.envs) 1 = some c1 ∧
     Ex.c4.toBuf = c1.toBuf ++ passText (runPasses Ex.w3x []) Ex.p4 1 ++ (bstr "102 Command completed successfully" ++ crlf) ++ prompt :=
@@ -372,7 +387,8 @@ theorem C02_errors_named (w0 : W) (ps : List PassIn) (p : PassIn) (g : Nat) (c0 
       c'.toBuf = c1.toBuf ++ passText (runPasses w0 ps) p g ++ (bstr "210 Command completed with errors" ++ crlf) ++ prompt) ∧
     ∀ x ∈ passFins (runPasses w0 ps) p g, x.2 ≠ .success →
       ∃ u v reason, passText (runPasses w0 ps) p g = u ++ (bstr "308 " ++ (x.1 ++ reason) ++ crlf) ++ v :=
-  errors w0 ps p g c0 k0 c' hinv ha hc0 hk0 ((isPower_iff k0.com).mpr hp) hbusy hidle hnone hbad
+  -- corollary of `C02_errors_named_runX` (passes that bring no regex answer)
+  errors_plain w0 ps p g c0 k0 c' hinv ha hc0 hk0 ((isPower_iff k0.com).mpr hp) hbusy hidle hnone hbad
 
 /-- the example run, the other way: nothing comes from the device, the action times out, the client gets `308 A: …` and `210` -/
 example : (∃ c1, cliRec (cliPostPoll (runPasses Ex.w3 []) Ex.pLate.acc Ex.pLate.envs) 1 = some c1 ∧
@@ -507,7 +523,7 @@ theorem C02_outcomes (g : Nat) (ps : List PassIn) (w : W) (c : Cli) (k : CmdC) (
     (∃ ps1 p ps2, ps = ps1 ++ p :: ps2 ∧
       (∃ c1 k1, cliRec (runPasses w ps1) g = some c1 ∧ c1.cmd = some k1 ∧ k1.al = k.al) ∧
       (cliRec (runPasses w (ps1 ++ [p])) g = none ∨ ∃ c2, cliRec (runPasses w (ps1 ++ [p])) g = some c2 ∧ c2.cmd = none)) :=
-  run_outcome g ps w c k hinv ha hc hk
+  run_outcome_plain g ps w c k hinv ha hc hk      -- corollary of `C02_outcomes_runX`
 
 /-- **A command in progress over a run.**  If after the run the client still has the command with the same arglist id, it
     is the command it had, with `pending` lowered by the number of completions the run reported for the client — fewer
@@ -518,7 +534,7 @@ theorem C02_track (g : Nat) (ps : List PassIn) (w : W) (c : Cli) (k : CmdC) (hin
     (hc' : cliRec (runPasses w ps) g = some c') (hk' : c'.cmd = some k') (hal : k'.al = k.al) :
     (runFins w ps g).length < k.pending ∧
     k' = { k with error := k.error || (runFins w ps g).any failed, pending := k.pending - (runFins w ps g).length } :=
-  run_track g ps w c k hinv ha hc hk c' k' hc' hk' hal
+  run_track_plain g ps w c k hinv ha hc hk c' k' hc' hk' hal      -- corollary of `C02_track_runX`
 
 example : ∃ c' k', cliRec (runPasses Ex.w0 [Ex.p1, Ex.p2, Ex.p3]) 1 = some c' ∧ c'.cmd = some k' ∧ k'.pending = 1 :=
   ⟨Ex.c0, Ex.k0, Ex.hc0, Ex.hk0, by decide +kernel⟩
@@ -571,5 +587,159 @@ example : ∀ c1 k, cliRec (cliPostPoll (runPasses Ex.w0 [Ex.p1]) Ex.p2.acc Ex.p
         rw [hc] at h1; simp [hk] at h1)
 
 end endToEnd
+
+/-! ## end to end, regex answers arbitrary in every pass (`runX`)
+
+The run theorems above quantify over `runPasses w ps`.  In such a run only the first pass can see an answer of the regex
+engine: the answers for the coming pass live in `W.pendingX`, `daemonPass` consumes and clears them, and the driver refills
+them *between* passes — so from the second pass on every `expect` sees "no match", a power script with an `expect` can never
+succeed after pass 1, and `C02_sound` / `C02_complete` say nothing about the runs that matter.  Here the same theorems are
+stated over `runX w qs` (`Pm/RunX.lean`, the definition shared with C03, C05, C06, C11, C15): a pass `q : PassX` is the kernel's
+answers `q.p` **and** the regex answers `q.rx` recorded for that pass; `feed w rx` is what the driver does between passes (it
+appends `rx` to `pendingX` and touches nothing else); `stepX w q = (daemonPass (feed w q.rx) q.p).1`.  The regex engine's
+answers are arbitrary in every pass.  `AliveX`, `runFinsX` are `Alive`, `runFins` for such runs.  The invariant `Inv` does not
+mention `pendingX`, so it is kept by `feed` (`C02_feed`).  Proofs: `Pm/RunXE2E.lean`; example run: `Pm/RunXEx.lean`. -/
+section endToEndX
+open Pm.Daemon.E2E
+open Pm.Daemon.Isolation (runPasses)
+
+/-- what the vocabulary is; the last three parts: a run whose passes bring no regex answer is a run of `runPasses`, with the
+    same completions and the same `Alive` -/
+theorem C02_runX_defs (w : W) (q : PassX) (qs : List PassX) (ps : List PassIn) (g : Nat) :
+    runX w (q :: qs) = runX (stepX w q) qs ∧ runX w [] = w ∧ stepX w q = (daemonPass (feed w q.rx) q.p).1 ∧
+    feed w q.rx = { w with pendingX := w.pendingX ++ q.rx } ∧
+    (AliveX w (q :: qs) ↔ passDead (feed w q.rx) q.p = false ∧ AliveX (stepX w q) qs) ∧
+    runFinsX w (q :: qs) g = passFins (feed w q.rx) q.p g ++ runFinsX (stepX w q) qs g ∧ runFinsX w [] g = [] ∧
+    runX w (ps.map fun p => ⟨p, []⟩) = runPasses w ps ∧ runFinsX w (ps.map fun p => ⟨p, []⟩) g = runFins w ps g ∧
+    (AliveX w (ps.map fun p => ⟨p, []⟩) ↔ Alive w ps) :=
+  ⟨rfl, rfl, rfl, rfl, Iff.rfl, rfl, rfl, runX_runPasses w ps, runFinsX_plain w ps g, aliveX_plain w ps⟩
+
+/-- **`feed` keeps the invariant**, the client records and the queues: handing the recorded regex answers to the daemon touches
+    `pendingX` only -/
+theorem C02_feed (w : W) (rx : List Pm.Dev2.RxCall) :
+    (Inv w → Inv (feed w rx)) ∧ (∀ g, cliRec (feed w rx) g = cliRec w g) ∧ (feed w rx).devs = w.devs ∧ (feed w rx).store = w.store :=
+  ⟨feed_inv rx, fun _ => rfl, rfl, rfl⟩
+
+/-- **The invariant `pending` = queued, regex answers arbitrary in every pass.**  `Inv` holds after any run of passes none of
+    which ends in an assertion — whatever the kernel answers, whatever the regex engine answers in each pass, whatever the
+    other clients do.  (`C02_pending_is_queued` is the case of passes that bring no answer.) -/
+theorem C02_pending_is_queued_runX (w : W) (qs : List PassX) (h : Inv w) (ha : AliveX w qs) : Inv (runX w qs) :=
+  runX_inv w qs h ha
+
+example : Inv (runX ExX.w2 (ExX.qs ++ [ExX.q4])) := C02_pending_is_queued_runX _ _ ExX.inv2 ExX.alive4
+
+/-- **C02, soundness — regex answers arbitrary in every pass.**  The statement of `C02_sound` for a run `qs ++ [q]` in which
+    every pass brings its own regex answers (`q.rx`, fed before the pass): client `g` has the power command `k0` in progress in
+    a state `w0` satisfying the invariant; no pass ends in an assertion; before the last pass `q` the command is still in
+    progress, after it the client is there and idle.  If its output buffer then ends with `102 Command completed successfully`
+    and the prompt: `k0`'s error flag was clear; the devices reported exactly `k0.pending` completions for the client during
+    the run — one for every action it had queued —; every one of them is a success; no result cell of a target is `unknown`
+    in the arglist as it stands after the pass.  (`C02_sound` is the case `qs.map (⟨·, []⟩)`, in which only the first pass of
+    the run can see a match.) -/
+theorem C02_sound_runX (w0 : W) (qs : List PassX) (q : PassX) (g : Nat) (c0 : Cli) (k0 : CmdC) (c' : Cli)
+    (hinv : Inv w0) (ha : AliveX w0 (qs ++ [q])) (hc0 : cliRec w0 g = some c0) (hk0 : c0.cmd = some k0)
+    (hp : k0.com ∈ [Com.on, .off, .cycle, .reset, .flash, .unflash])
+    (hbusy : ∃ c k, cliRec (runX w0 qs) g = some c ∧ c.cmd = some k ∧ k.al = k0.al)
+    (hidle : cliRec (runX w0 (qs ++ [q])) g = some c') (hnone : c'.cmd = none)
+    (h102 : bstr "102 Command completed successfully" ++ crlf ++ prompt <:+ c'.toBuf) :
+    k0.error = false ∧ (runFinsX w0 (qs ++ [q]) g).length = k0.pending ∧ k0.pending = totalQ g w0.devs ∧
+    (∀ x ∈ runFinsX w0 (qs ++ [q]) g, x.2 = .success) ∧
+    ∀ n ∈ k0.names, ∀ a, ((storeArgs (runX w0 (qs ++ [q])) k0.al).map argC).find? (·.node == n) = some a → a.result ≠ 1 :=
+  soundX w0 qs q g c0 k0 c' hinv ha hc0 hk0 ((isPower_iff k0.com).mpr hp) hbusy hidle hnone (by simpa [okLine, List.append_assoc] using h102)
+
+/- non-vacuity, with an `expect` that matches in the SECOND pass of the run (`Pm/RunXEx.lean`; no run of `runPasses` has that).
+   The run starts in `ExX.w2`: client 1's `on a1` has just been accepted (`pending = 1`).  First pass `⟨p3, []⟩`: the device takes
+   the bytes, nothing completes (`ExX.fins3`), the command is still in progress (`ExX.busy`).  Second pass `⟨p4, xs4⟩`: the
+   device's `OK\n` arrives and the regex answer fed before this pass makes the `expect` match: one success completion, the
+   client is sent `102`.  Without the answer (`⟨p4, []⟩`, all `runPasses` can say from `w2`) nothing completes
+   (`ExX.without_answer`). -/
+example : ExX.qs = [⟨Ex.p3, []⟩] ∧ ExX.q4 = ⟨Ex.p4, Ex.xs4⟩ ∧ runFinsX ExX.w2 ExX.qs 1 = [] ∧
+    passFins (feed (runX ExX.w2 ExX.qs) ExX.q4.rx) ExX.q4.p 1 = [([65], .success)] ∧
+    ExX.c4.toBuf = bstr "001 2\r\npowerman> 102 Command completed successfully\r\npowerman> " ∧
+    runFinsX ExX.w2 (ExX.qs ++ [⟨Ex.p4, []⟩]) 1 = [] :=
+  ⟨rfl, rfl, ExX.fins3, ExX.fins4_last, by decide +kernel, ExX.without_answer.1⟩
+example : ExX.k0.error = false ∧ (runFinsX ExX.w2 (ExX.qs ++ [ExX.q4]) 1).length = ExX.k0.pending ∧ ExX.k0.pending = totalQ 1 ExX.w2.devs ∧
+    (∀ x ∈ runFinsX ExX.w2 (ExX.qs ++ [ExX.q4]) 1, x.2 = .success) ∧
+    ∀ n ∈ ExX.k0.names, ∀ a, ((storeArgs (runX ExX.w2 (ExX.qs ++ [ExX.q4])) ExX.k0.al).map argC).find? (·.node == n) = some a → a.result ≠ 1 :=
+  C02_sound_runX ExX.w2 ExX.qs ExX.q4 1 ExX.c0 ExX.k0 ExX.c4 ExX.inv2 ExX.alive4 ExX.hc0 ExX.hk0 (by decide +kernel)
+    ExX.busy ExX.hc4 ExX.idle4 ⟨bstr "001 2\r\npowerman> ", by rw [ExX.buf4]; simp [okLine, List.append_assoc]⟩
+
+/-- **C02, completeness — regex answers arbitrary in every pass** (same setting).  If `k0`'s error flag was clear, every
+    completion the run reported for the client is a success and no result cell of a target is `unknown` after the answering
+    pass, the client was sent — after the lines of that pass — `102 Command completed successfully` and the prompt (`c1` is its
+    record when the client phase of the pass is over; `feed (runX w0 qs) q.rx` is the world the answering pass starts from:
+    the world the run has reached, with the regex answers of that pass handed over). -/
+theorem C02_complete_runX (w0 : W) (qs : List PassX) (q : PassX) (g : Nat) (c0 : Cli) (k0 : CmdC) (c' : Cli)
+    (hinv : Inv w0) (ha : AliveX w0 (qs ++ [q])) (hc0 : cliRec w0 g = some c0) (hk0 : c0.cmd = some k0)
+    (hp : k0.com ∈ [Com.on, .off, .cycle, .reset, .flash, .unflash])
+    (hbusy : ∃ c k, cliRec (runX w0 qs) g = some c ∧ c.cmd = some k ∧ k.al = k0.al)
+    (hidle : cliRec (runX w0 (qs ++ [q])) g = some c') (hnone : c'.cmd = none)
+    (herr : k0.error = false) (hall : ∀ x ∈ runFinsX w0 (qs ++ [q]) g, x.2 = .success)
+    (hres : ∀ n ∈ k0.names, ∀ a, ((storeArgs (runX w0 (qs ++ [q])) k0.al).map argC).find? (·.node == n) = some a → a.result ≠ 1) :
+    ∃ c1, cliRec (cliPostPoll (feed (runX w0 qs) q.rx) q.p.acc q.p.envs) g = some c1 ∧
+      c'.toBuf = c1.toBuf ++ passText (feed (runX w0 qs) q.rx) q.p g ++ (bstr "102 Command completed successfully" ++ crlf) ++ prompt :=
+  completeX w0 qs q g c0 k0 c' hinv ha hc0 hk0 ((isPower_iff k0.com).mpr hp) hbusy hidle hnone herr hall hres
+
+/- the same run: the `expect` matches in the second pass, the hypotheses of completeness hold, the client is sent `102` -/
+example : ∃ c1, cliRec (cliPostPoll (feed (runX ExX.w2 ExX.qs) ExX.q4.rx) ExX.q4.p.acc ExX.q4.p.envs) 1 = some c1 ∧
+    ExX.c4.toBuf = c1.toBuf ++ passText (feed (runX ExX.w2 ExX.qs) ExX.q4.rx) ExX.q4.p 1 ++
+      (bstr "102 Command completed successfully" ++ crlf) ++ prompt :=
+  C02_complete_runX ExX.w2 ExX.qs ExX.q4 1 ExX.c0 ExX.k0 ExX.c4 ExX.inv2 ExX.alive4 ExX.hc0 ExX.hk0 (by decide +kernel)
+    ExX.busy ExX.hc4 ExX.idle4 (by decide +kernel)
+    (by rw [ExX.fins4]; intro x hx; simp only [List.mem_singleton] at hx; subst hx; rfl)
+    (by decide +kernel)
+
+/-- **C02, errors are reported and named — regex answers arbitrary in every pass** (same setting).  If `k0`'s error flag was
+    set, or some completion the run reported for the client is a failure, or some result cell of a target is `unknown` after
+    the answering pass, the client was sent — after the lines of that pass — `210 Command completed with errors` and the prompt;
+    and every failed completion of that pass has its line `308 <device>: <reason>` among those lines. -/
+theorem C02_errors_named_runX (w0 : W) (qs : List PassX) (q : PassX) (g : Nat) (c0 : Cli) (k0 : CmdC) (c' : Cli)
+    (hinv : Inv w0) (ha : AliveX w0 (qs ++ [q])) (hc0 : cliRec w0 g = some c0) (hk0 : c0.cmd = some k0)
+    (hp : k0.com ∈ [Com.on, .off, .cycle, .reset, .flash, .unflash])
+    (hbusy : ∃ c k, cliRec (runX w0 qs) g = some c ∧ c.cmd = some k ∧ k.al = k0.al)
+    (hidle : cliRec (runX w0 (qs ++ [q])) g = some c') (hnone : c'.cmd = none)
+    (hbad : k0.error = true ∨ (∃ x ∈ runFinsX w0 (qs ++ [q]) g, x.2 ≠ .success) ∨
+      ¬ ∀ n ∈ k0.names, ∀ a, ((storeArgs (runX w0 (qs ++ [q])) k0.al).map argC).find? (·.node == n) = some a → a.result ≠ 1) :
+    (∃ c1, cliRec (cliPostPoll (feed (runX w0 qs) q.rx) q.p.acc q.p.envs) g = some c1 ∧
+      c'.toBuf = c1.toBuf ++ passText (feed (runX w0 qs) q.rx) q.p g ++ (bstr "210 Command completed with errors" ++ crlf) ++ prompt) ∧
+    ∀ x ∈ passFins (feed (runX w0 qs) q.rx) q.p g, x.2 ≠ .success →
+      ∃ u v reason, passText (feed (runX w0 qs) q.rx) q.p g = u ++ (bstr "308 " ++ (x.1 ++ reason) ++ crlf) ++ v :=
+  errorsX w0 qs q g c0 k0 c' hinv ha hc0 hk0 ((isPower_iff k0.com).mpr hp) hbusy hidle hnone hbad
+
+/- non-vacuity: from `ExX.w2`, the device takes the bytes (`⟨p3, []⟩`), then nothing comes until the action's time-out has passed
+   (`⟨pLate, []⟩`): `308 A: action timed out …`, `210` -/
+example : (runFinsX ExX.w2 (ExX.qs ++ [⟨Ex.pLate, []⟩]) 1 = [([65], .expfail)]) ∧
+    (cliRec (runX ExX.w2 (ExX.qs ++ [⟨Ex.pLate, []⟩])) 1).map (fun c => (c.toBuf, c.cmd.isNone)) =
+      some (bstr "001 2\r\npowerman> 308 A: action timed out waiting for expected response\r\n210 Command completed with errors\r\npowerman> ", true) ∧
+    AliveX ExX.w2 (ExX.qs ++ [⟨Ex.pLate, []⟩]) :=
+  ⟨by decide +kernel, by decide +kernel, by decide +kernel, by decide +kernel, trivial⟩
+
+/-- **What can become of a command over a run — regex answers arbitrary in every pass**: still in progress at the end, or there
+    is a pass `q` of the run before which it is in progress and after which the client is gone or idle (answered:
+    `C02_sound_runX`, `C02_complete_runX`, `C02_errors_named_runX`). -/
+theorem C02_outcomes_runX (g : Nat) (qs : List PassX) (w : W) (c : Cli) (k : CmdC) (hinv : Inv w) (ha : AliveX w qs)
+    (hc : cliRec w g = some c) (hk : c.cmd = some k) :
+    (∃ c' k', cliRec (runX w qs) g = some c' ∧ c'.cmd = some k' ∧ k'.al = k.al) ∨
+    (∃ qs1 q qs2, qs = qs1 ++ q :: qs2 ∧
+      (∃ c1 k1, cliRec (runX w qs1) g = some c1 ∧ c1.cmd = some k1 ∧ k1.al = k.al) ∧
+      (cliRec (runX w (qs1 ++ [q])) g = none ∨ ∃ c2, cliRec (runX w (qs1 ++ [q])) g = some c2 ∧ c2.cmd = none)) :=
+  run_outcomeX g qs w c k hinv ha hc hk
+
+/-- **A command in progress over a run — regex answers arbitrary in every pass.**  If after the run the client still has the
+    command with the same arglist id, it is the command it had, with `pending` lowered by the number of completions the run
+    reported for the client — fewer than `pending` — and the error flag or-ed with "one of them failed". -/
+theorem C02_track_runX (g : Nat) (qs : List PassX) (w : W) (c : Cli) (k : CmdC) (hinv : Inv w) (ha : AliveX w qs)
+    (hc : cliRec w g = some c) (hk : c.cmd = some k) (c' : Cli) (k' : CmdC)
+    (hc' : cliRec (runX w qs) g = some c') (hk' : c'.cmd = some k') (hal : k'.al = k.al) :
+    (runFinsX w qs g).length < k.pending ∧
+    k' = { k with error := k.error || (runFinsX w qs g).any failed, pending := k.pending - (runFinsX w qs g).length } :=
+  run_trackX g qs w c k hinv ha hc hk c' k' hc' hk' hal
+
+/- in the example run: after the first pass the command is the one accepted, untouched (no completion yet) -/
+example : ExX.k3 = { ExX.k0 with error := ExX.k0.error || (runFinsX ExX.w2 ExX.qs 1).any failed,
+                                  pending := ExX.k0.pending - (runFinsX ExX.w2 ExX.qs 1).length } :=
+  (C02_track_runX 1 ExX.qs ExX.w2 ExX.c0 ExX.k0 ExX.inv2 ExX.alive4.append.1 ExX.hc0 ExX.hk0 ExX.c3 ExX.k3 ExX.hc3 ExX.hk3 ExX.al3).2
+
+end endToEndX
 
 end Pm.Props.C02
